@@ -182,6 +182,11 @@ def run(tier, replay=None):
         mine = [e for e in evs if e.get("w") == w]
         at = mine[k - 1] if k - 1 < len(mine) else {}
         atdesc = "%s %s" % (at.get("ev", "?"), at.get("name", at.get("file", "")))
+        # was mrp still creating the pipestance (Runtime.InvokePipeline writes the
+        # top-level _timestamp last)?
+        created = next((i + 1 for i, e in enumerate(mine) if e.get("ev") == "MdWrite" and e.get("name") == "timestamp"), 0)
+        if k < created and "did not complete" in b["what"]:
+            atdesc = "creation-window"
         viols.append({
             "prop": b["prop"],
             "key": "%s:%s:%s:%s:%s" % (b["prop"], p["name"], sig, atdesc.strip(), b["what"].split(":")[0][:50]),
